@@ -3,6 +3,8 @@
 REAL_EQL = ["real: krrood EQL engine (symbolic.py, hashed_data.py, conclusion_selector.py, rule.py, conclusion.py, predicate.py, entity.py, utils.py), SymbolGraph singleton, rustworkx, CPython generators and GC",
             "stub: domain item classes, predicate and symbolic-function bodies, domain streams, inferred classes (sim/worlds/eworld.py)"]
 
+COMP_O = ["real: PropertyDescriptor (__get__/__set__/update_value), MonitoredList/MonitoredSet, PropertyDescriptorRelation inference (super, inverse, transitive, role taker), SymbolGraph relation store, class diagram lookups", "stub: ontology classes Org/Human/Boss with six descriptors (sim/worlds/oworld.py); the reference closure is computed from the plain table ONTOLOGY in the same file and never touches krrood"]
+
 PROPERTIES = {
     "C03": {
         "machine": "eval_sim",
@@ -103,9 +105,46 @@ PROPERTIES["C20"] = {
     "assumptions": ["sampling, not enumeration", "retention is judged only after ALL program references (instances, query objects, results, iterators) are dropped", "the automatic cyclic GC is disabled; gc.collect() is an op"],
 }
 
+PROPERTIES["C15"] = {
+    "machine": "onto_sim",
+    "engine": "Sim-O",
+    "level": "exploration",
+    "level_text": "Facts (source, property, target) over 3-8 ontology instances - chains, diamonds and cycles of two transitive properties, a three-deep sub-property chain, an inverse pair, a role whose super-properties live on the role taker - are treated as messages: the scheduler delivers them in a seeded order, re-delivers some, routes each through a randomly chosen monotone write path (single-valued assignment, append, extend, insert, add, update, assignment of a container to a still-empty field) and interleaves gc, sweeps and creations of unrelated instances. After EVERY delivered message the graph relations and every managed field are compared with a reference closure (a fixpoint over the plain ontology table); in 40% of the runs the same facts are delivered in a second order on a fresh graph and the two final states are diffed.",
+    "design_ref": "DESIGN.md section 5, C15",
+    "level_note": "Only monotone writes are used (the code has no retraction, so 'derivable from the asserted facts' is defined for growing fact sets only). A single-valued field with several derivable targets may hold any of them. Container fields are compared as sets (multiplicity and order are C16's subject). The reference closure is the trusted model; the ontology table is the single source for it.",
+    "technique": "deterministic simulation: seeded message reordering, duplication and write-path substitution with gc/sweep faults; reference-model oracle (closure fixpoint) evaluated after every delivery",
+    "tiers": {
+        "quick": {"runs": 12000, "wall_s": 150, "triage_s": 60},
+        "thorough": {"runs": 800000, "wall_s": 3000, "triage_s": 300},
+    },
+    "cfg": {},
+    "rule": "one run = population (3-8 instances), 1-9 facts, a delivery schedule with duplicates / gc / sweep / unrelated creations, optionally a second order. Non-trivial: the closure is strictly larger than the asserted facts. Distinct: hash of (canonical fact set, delivery order).",
+    "components": COMP_O,
+    "assumptions": ["well-typed facts only (the generator respects the declared ranges)", "sampling, not enumeration", "bounds: <=8 instances, <=9 facts"],
+}
+
+PROPERTIES["C16"] = {
+    "machine": "onto_sim",
+    "engine": "Sim-O",
+    "level": "exploration",
+    "level_text": "Seeded histories of write operations on one list-valued (Human.member_of) or one set-valued (Org.members) managed field, starting from contents given to the constructor: assignment of a new collection, assignment of the field to itself, += / |= (executed as real Python statements), append, extend, insert, item assignment, add, update, with elements drawn with repetition and gc / sweep events in between. A plain Python list / set receives the same operations; after every operation the field read through its public attribute must equal the model (lists: same elements, order and multiplicity) and the graph must equal the reference closure of every (owner, property, element) for every element that has ever become part of the field, with the owner visible in each such element's inverse field.",
+    "design_ref": "DESIGN.md section 5, C16",
+    "level_note": "The fields under test are non-transitive, so inference never writes to them and their order is fully determined by the user's writes. Unmonitored mutators outside the listed operations (slice deletion, *=, sort, ...) are not exercised.",
+    "technique": "deterministic simulation: seeded operation histories with gc/sweep faults against an executable reference model (Python list/set + closure fixpoint), checked after every step",
+    "tiers": {
+        "quick": {"runs": 12000, "wall_s": 150, "triage_s": 60},
+        "thorough": {"runs": 800000, "wall_s": 3000, "triage_s": 300},
+    },
+    "cfg": {},
+    "rule": "one run = kind (list|set), 1-5 candidate elements, initial contents, 1-10 operations. Non-trivial: at least two operations or one augmented/self/multi-element assignment. Distinct: hash of (kind, initial contents, operations).",
+    "components": COMP_O,
+    "assumptions": ["sampling, not enumeration", "bounds: <=5 distinct elements, <=10 operations"],
+}
+
 # <<NEW-PROPERTIES>>
 
 ENGINES = {
+    "Sim-O": "ontology assertion simulator: facts are messages; the scheduler reorders, duplicates and routes them through write paths, with gc/sweep events; oracle = reference closure from a plain ontology table; fork-per-run",
     "Sim-L": "lifecycle simulator: cyclic GC disabled, reference drops / gc.collect / sweep / graph clear are scheduled ops on a harness-owned handle table, weak-reference census as ground truth; fork-per-run",
     "Sim-E": "evaluation simulator: the generators returned by evaluate() are the tasks; a seeded op list decides every next(), close(), reference drop and gc; fork-per-run from a pristine template process",
 }
@@ -132,5 +171,5 @@ NOT_APPLICABLE = {
     "C11": "pattern matching vs explicit query: pure in (pattern, data); " + _PURE,
     "C12": "predicates/symbolic functions, concrete vs symbolic call: pure in (signature, call shape, binding); " + _PURE,
     "C18": "JSON round trip: pure in the value; " + _PURE,
-    "C15": _WIP, "C16": _WIP, "C17": _WIP, "C19": _WIP,
+    "C17": _WIP, "C19": _WIP,
 }
